@@ -12,6 +12,7 @@ Inductive xop :=
 | XOp (o : op)
 | XSymPrec (x : sym) (p : nat)                 (* Exchange.set_symbol_precision(x, p) *)
 | XPairInfo (pr : pair) (bq : nat * nat)       (* Exchange.set_pair_info(pr, PairInfo(b, q)) *)
+| XLend (l : lend_cfg)                         (* lending conditions changed (the conditions objects are mutable) *)
 | XTick (w : Z).                               (* the dispatcher's clock moves to [w] without a bar: a scheduled job runs *)
 
 (* lookups return the first match, so a new head entry is the dict assignment *)
@@ -22,6 +23,7 @@ Definition reconf (c : cfg) (x : xop) : cfg :=
     mkCfg ((y, p) :: c_sym_prec c) (c_pair_info c) (c_default_pair c) (c_fee c) (c_liq c) (c_lend c)
   | XPairInfo pr bq =>
     mkCfg (c_sym_prec c) ((pr, bq) :: c_pair_info c) (c_default_pair c) (c_fee c) (c_liq c) (c_lend c)
+  | XLend l => mkCfg (c_sym_prec c) (c_pair_info c) (c_default_pair c) (c_fee c) (c_liq c) l
   | XTick _ => c
   end.
 
